@@ -49,6 +49,7 @@ type CheckCtx struct {
 	Warn     []string
 	Instances int
 	Exhaustive bool
+	Subset     bool // some stage of this run enumerated a stated subset of its domain
 	TracesValidated int
 	fpGoals map[string]bool // case-split goals: covered by at least one stage?
 	calleePosts map[string]map[string]bool // callee -> ensures labels assumed at call sites during this check
@@ -320,6 +321,9 @@ func runCheck(id, tier string, seed int64) int {
 		smtOutDir = filepath.Join("/verif/out/smt", id)
 	}
 	os.RemoveAll(smtOutDir)
+	if tier != "thorough" {
+		stageBudget = 5 * time.Minute
+	}
 	w, err := LoadWorld()
 	defer w.Close()
 	if err != nil {
@@ -367,8 +371,15 @@ func runCheck(id, tier string, seed int64) int {
 	}
 	cc.guard(id+"/callee-contracts", func() { cc.closeCallees() })
 	for g, covered := range cc.fpGoals {
-		if !covered && !(tier == "quick" && len(cc.Notes) > 0) {
-			cc.ToolErr = append(cc.ToolErr, "case-split goal not closed by any stage: "+g)
+		if !covered {
+			// a floating-point goal that every stage of this run had to skip (its terms keep symbols no
+			// stage substitutes, e.g. the result of a call the stages do not know): undischarged
+			name := g
+			if i := strings.Index(g, ":"); i >= 0 {
+				name = g[i+1:]
+			}
+			cc.Results = append(cc.Results, ObResult{Name: name + "[no stage closes this goal]", Kind: "case-split", Status: "undischarged", Solver: "govc",
+				Output: "on the unchanged tree this goal is closed by a case-split stage; with the current body its terms keep free symbols under every stage's substitution"})
 		}
 	}
 	return cc.finish(pd, time.Since(t0).Seconds())
@@ -642,7 +653,7 @@ func (cc *CheckCtx) finish(pd *PropDef, wall float64) int {
 	}
 	if cc.Instances > 0 {
 		cov["case_instances"] = cc.Instances
-		cov["exhaustive"] = cc.Exhaustive
+		cov["exhaustive"] = cc.Exhaustive && !cc.Subset
 	}
 	if cc.TracesValidated > 0 {
 		cov["traces_validated_against_impl"] = cc.TracesValidated
